@@ -53,8 +53,16 @@ func gotProbes(s *scanSpec, cr *CmdResult) (map[probeKey]int, []string) {
 		}
 		return got, bad
 	}
+	// framing follows the interface the socket was opened on: one without a hardware address
+	// (loopback here, when the target range lies in 127.0.0.0/8; tun devices) carries raw IP
+	rawIP := map[int]bool{}
+	for _, sk := range cr.Socks {
+		if sk.Iface == "lo" {
+			rawIP[sk.ID] = true
+		}
+	}
 	for _, f := range cr.Wire {
-		k, _, err := probeOf(s.Kind, f.Data, s.VPN)
+		k, _, err := probeOf(s.Kind, f.Data, s.VPN || rawIP[f.Sock])
 		if err != nil {
 			bad = append(bad, fmt.Sprintf("frame %d undecodable: %v", f.Idx, err))
 			continue
